@@ -213,6 +213,78 @@ def check_declaration_links(root):
     return None
 
 
+def _home(ref):
+    """Where the symbol a Reference holds is declared, as seen from the
+    written program: in the routine (any of its scopes), in the enclosing
+    module, imported, or nowhere."""
+    from psyclone.psyir.nodes import Routine, ScopingNode
+    sym = ref.symbol
+    if type(sym).__name__ == "IntrinsicSymbol":
+        return None
+    top = ref.ancestor(Routine)
+    if top is None:
+        return None
+    for scope in top.walk(ScopingNode):
+        if any(s is sym for s in scope.symbol_table.symbols):
+            if getattr(sym, "is_import", False):
+                return "import"
+            if getattr(sym, "is_unresolved", False):
+                return "unresolved"
+            return "routine"
+    cur = top.parent
+    while cur is not None:
+        if isinstance(cur, ScopingNode) and any(
+                s is sym for s in cur.symbol_table.symbols):
+            if getattr(sym, "is_import", False):
+                return "import"
+            return "module"
+        cur = cur.parent
+    return "nowhere"
+
+
+def check_reread(root, text):
+    """The written text, read back by the real front end, must bind every
+    reference at the same level as the tree it was written from: a
+    reference to a module variable must not have become a reference to a
+    routine-local entity (capture by a renamed or hoisted symbol), nor the
+    reverse.  Compared routine by routine, reference by reference in walk
+    order; only done when both walks have the same length."""
+    from psyclone.psyir.frontend.fortran import FortranReader
+    from psyclone.psyir.nodes import Routine, Reference
+    if "modvars" not in _reread_state:
+        return None
+    try:
+        again = FortranReader().psyir_from_source(text)
+    except Exception:
+        return None
+    for rt in root.walk(Routine):
+        twins = [r for r in again.walk(Routine) if r.name == rt.name]
+        if len(twins) != 1:
+            continue
+        refs_a = [r for r in rt.walk(Reference)
+                  if type(r.symbol).__name__ not in ("IntrinsicSymbol",
+                                                     "RoutineSymbol")]
+        refs_b = [r for r in twins[0].walk(Reference)
+                  if type(r.symbol).__name__ not in ("IntrinsicSymbol",
+                                                     "RoutineSymbol")]
+        if len(refs_a) != len(refs_b):
+            continue
+        for ra, rb in zip(refs_a, refs_b):
+            ha, hb = _home(ra), _home(rb)
+            if ha in ("module", "routine") and hb in ("module", "routine") \
+                    and ha != hb:
+                return ("written-reference-binds-at-another-level",
+                        {"name_in_tree": ra.symbol.name,
+                         "name_in_text": rb.symbol.name,
+                         "tree": ha, "text": hb, "routine": rt.name})
+    return None
+
+
+# set by run_history for programs of the "modvars" variant: the re-read
+# costs a parse per step and only matters when module variables exist
+_reread_state = set()
+
+
 DECL = re.compile(r"(?i)^\s*(integer|real|double precision|logical|"
                   r"character|type\s*\(|complex)[^:]*::\s*(.*)$")
 
@@ -266,6 +338,10 @@ def judge(root):
     if bad:
         return {"class": bad[0], "observed": {"detail": bad[1],
                                               "text": text}}, "text"
+    bad = check_reread(root, text)
+    if bad:
+        return {"class": bad[0], "observed": {"detail": bad[1],
+                                              "text": text}}, "text"
     errs, _ = gfcheck.compile_text(text, [])
     derrs = [e for e in errs if gfcheck.is_declaration_error(e)]
     if derrs:
@@ -277,6 +353,9 @@ def judge(root):
 
 
 def run_history(prog, ops, counters=None, log=None):
+    _reread_state.clear()
+    if prog.get("modvars"):
+        _reread_state.add("modvars")
     root = c26.parse(prog)
     cl = c26.classes()
     accepted = 0
@@ -321,13 +400,33 @@ def run_history(prog, ops, counters=None, log=None):
     return {"class": None, "accepted": accepted, "pattern": pattern}
 
 
-def gen_history(rng):
+REPEATABLE = ["Abs2CodeTrans", "Sign2CodeTrans", "Min2CodeTrans",
+              "Max2CodeTrans", "ChunkLoopTrans", "Sum2LoopTrans",
+              "Maxval2LoopTrans", "ArrayAssignment2LoopsTrans",
+              "HoistLoopBoundExprTrans"]
+
+
+def gen_history(rng, prog=None):
     ops = []
     for _ in range(rng.randint(2, 7)):
         op = hm.gen_op(rng, [pick(rng, CREATORS)])
         op["opt"] = pick(rng, [len(hm.OPTIONS), len(hm.OPTIONS), 8, 9, 21,
                                19, 2])
         ops.append(op)
+    modvars = bool(prog and prog.get("modvars"))
+    if rng.random() < (0.8 if modvars else 0.4):
+        # the same symbol-creating transformation applied to several
+        # targets (different loop bodies): its temporaries get the same
+        # base name in different inner scopes and clash when the routine
+        # is written
+        cls = pick(rng, REPEATABLE[:5] if modvars else REPEATABLE)
+        rep = []
+        for _ in range(rng.randint(2, 4)):
+            op = hm.gen_op(rng, [cls])
+            op["opt"] = len(hm.OPTIONS)
+            op["pref"] = True
+            rep.append(op)
+        ops = rep + ops[:3]
     return ops
 
 
@@ -348,7 +447,7 @@ def run_one(seed, index, tier):
     rng_p = stream(seed, "program")
     rng_h = stream(seed, "history")
     prog = richgen.gen_program(rng_p)
-    ops = gen_history(rng_h)
+    ops = gen_history(rng_h, prog)
     log = []
     try:
         res = run_history(prog, ops, counters, log)
